@@ -36,6 +36,7 @@ import (
 	"sync/atomic"
 	"time"
 
+	"gpverif/cmd/c03/scope"
 	"gpverif/common"
 
 	"github.com/go-python/gpython/parser"
@@ -666,6 +667,84 @@ func runUniverse(env *common.Env, rep *common.Report, c *collector, p *pool, alp
 }
 
 // ---------------------------------------------------------------------------------------
+// scope-shaped VALID programs: the family spec/C03/PyScopeFlags.tla enumerates - one program per
+// assignment of def-use flag sets (global / nonlocal declaration, binding, use, parameter) to the
+// blocks of a module > def|class > def|class > def|class nesting - rendered by the package the C03
+// and C18 harnesses share.  They drive the symtable -> compile hand-over (cell / free / global
+// bookkeeping, closure construction), which syntax-shaped inputs do not reach.  For C11 only the
+// outcome alphabet is the oracle; what each name must resolve to is C03's subject.
+
+func runScopePrograms(env *common.Env, rep *common.Report, p *pool) (n int) {
+	cfgName := "scope_" + env.Tier + ".cfg"
+	cfg, err := os.ReadFile(filepath.Join(env.Verif, "spec", "C11", cfgName))
+	if err != nil {
+		common.Inconclusive("property=C11 %v", err)
+	}
+	seen := map[string]bool{}
+	bad := 0
+	res := env.MustTLC(common.TLCRun{Dir: "C03", Module: "PyScopeFlags", Config: "c11_" + cfgName, Extra: map[string]string{"c11_" + cfgName: string(cfg)},
+		Timeout: 12 * time.Minute, OnLine: func(rec []byte) {
+			var c scope.Case
+			if err := json.Unmarshal(rec, &c); err != nil || len(c.P) == 0 {
+				bad++
+				return
+			}
+			src := scope.Render(c.P)
+			if seen[src] {
+				return
+			}
+			seen[src] = true
+			n++
+			if n%4000 == 17 {
+				rep.Sample(map[string]interface{}{"kind": "scope program (spec/C03/PyScopeFlags)", "source": show(src)})
+			}
+			p.jobs <- job{src: src, lex: lexClaim{Lex: "none"}, origin: "scope program of spec/C03/PyScopeFlags (" + cfgName + ")"}
+		}})
+	rep.AddTLC(res)
+	if bad > 0 || !res.Finished || len(res.Violations) > 0 {
+		common.Inconclusive("property=C11 scope program generation failed (%d unreadable records, %v)\n%s", bad, res.Violations, res.Stdout)
+	}
+	return n
+}
+
+// ---------------------------------------------------------------------------------------
+// grammar-shaped VALID programs: the bounded random statement / expression trees of
+// spec/C06/PyGrammarGen.tla in two spellings each (they parse by construction, so all of them
+// reach the symbol table and most of them code generation and the assembler).
+
+func runGrammarPrograms(env *common.Env, rep *common.Report, p *pool) (n int) {
+	cfg := fmt.Sprintf("SPECIFICATION Spec\nCONSTANTS Seed = %d\n Kind = \"random\"\n NCases = %d\n NSpell = 2\n ExprDepth = %d\n StmtDepth = %d\n NMutants = 0\nINVARIANT SelfCheck\nINVARIANT Emit\nCHECK_DEADLOCK FALSE\n",
+		(env.Seed+50000)%100000, env.Pick(400, 3000), env.Pick(2, 3), env.Pick(2, 2))
+	bad := 0
+	res := env.MustTLC(common.TLCRun{Dir: "C06", Module: "PyGrammarGen", Config: "c11_random.cfg", Extra: map[string]string{"c11_random.cfg": cfg},
+		Timeout: 12 * time.Minute, OnLine: func(rec []byte) {
+			var c struct {
+				Spellings []struct {
+					Text      []string `json:"text"`
+					SelfCheck string   `json:"selfcheck"`
+				} `json:"spellings"`
+			}
+			if err := json.Unmarshal(rec, &c); err != nil || len(c.Spellings) == 0 {
+				bad++
+				return
+			}
+			for _, sp := range c.Spellings {
+				if sp.SelfCheck != "ok" {
+					bad++
+					continue
+				}
+				n++
+				p.jobs <- job{src: strings.Join(sp.Text, "\n") + "\n", lex: lexClaim{Lex: "none"}, origin: "spelled tree of spec/C06/PyGrammarGen"}
+			}
+		}})
+	rep.AddTLC(res)
+	if bad > 0 || !res.Finished || len(res.Violations) > 0 {
+		common.Inconclusive("property=C11 grammar program generation failed (%d bad records, %v)\n%s", bad, res.Violations, res.Stdout)
+	}
+	return n
+}
+
+// ---------------------------------------------------------------------------------------
 // mutations of the repository's Python files
 
 var chunkRe = regexp.MustCompile(`[A-Za-z_][A-Za-z_0-9]*|[0-9][0-9a-zA-Z_.]*|[ \t]+|\r?\n|.`)
@@ -848,6 +927,10 @@ func main() {
 		lap("universe_simulated_done_at")
 	}()
 	tlcWG.Wait()
+	nScope := runScopePrograms(env, rep, p)
+	lap("scope_programs_done_at")
+	nGrammar := runGrammarPrograms(env, rep, p)
+	lap("grammar_programs_done_at")
 	// 3. mutations of the repository's .py files
 	files, mutants := runMutations(env, rep, p, alpha, env.Pick(12, 150))
 	p.finish()
@@ -864,7 +947,7 @@ func main() {
 	rep.Rule = "cases = source texts: every sequence of 1.." + strconv.Itoa(env.Pick(2, 3)) + " items of the " + strconv.Itoa(len(alpha)) +
 		"-item alphabet (spec/C11/alphabet.ndjson) joined with and without a space, every filler of 0.." + strconv.Itoa(env.Pick(1, 2)) +
 		" items in each grammatical frame of PipelineUniverse.tla, every leaf statement under every nesting of 1.." + strconv.Itoa(env.Pick(2, 3)) +
-		" compound frames (TLC, exhaustive), seeded TLC draws of 3..8 free items and 2..4 filler items, " +
+		" compound frames, every def-use flag configuration of spec/C03/PyScopeFlags on 4-block nestings (TLC, exhaustive), seeded spelled trees of spec/C06/PyGrammarGen, seeded TLC draws of 3..8 free items and 2..4 filler items, " +
 		"and seeded byte/token mutations of every .py file of the repository; each compiled in exec, eval and single mode. " +
 		"distinct_nontrivial counts distinct source texts (SHA-1); evaluations counts py.Compile calls plus parser.LexString comparisons"
 	rep.Exhaustive = false
@@ -874,6 +957,8 @@ func main() {
 	rep.Extra["sequences_simulated"] = nSim
 	rep.Extra["sequences_in_frames"] = framedTotal.Load()
 	rep.Extra["sequences_nested_compound_frames"] = nestedTotal.Load()
+	rep.Extra["scope_programs"] = nScope
+	rep.Extra["grammar_programs"] = nGrammar
 	rep.Extra["repository_files"] = files
 	rep.Extra["mutants"] = mutants
 	rep.Extra["compiles"] = c.compiles
@@ -890,8 +975,8 @@ func main() {
 		"the specification contributes the universe, the lexical classification (PyLex) and the outcome monitor (Pipeline); it does not decide which texts must compile",
 		"a compile that exceeds the 10 s watchdog is re-run alone with 30 s before it counts as a hang",
 	}
-	if nestedTotal.Load() == 0 || framedTotal.Load() == 0 {
-		common.Inconclusive("property=C11 vacuous run: framed=%d nested=%d sequences", framedTotal.Load(), nestedTotal.Load())
+	if nestedTotal.Load() == 0 || framedTotal.Load() == 0 || nScope == 0 {
+		common.Inconclusive("property=C11 vacuous run: framed=%d nested=%d sequences, %d scope programs", framedTotal.Load(), nestedTotal.Load(), nScope)
 	}
 	for _, k := range []string{"err", "eof", "toks"} {
 		if c.lexClass[k] == 0 {
